@@ -244,5 +244,6 @@ func famConc(dir string, seed int64, tier string) {
 		}
 	}
 	runtime.GOMAXPROCS(runtime.NumCPU())
+	apiLateRegistration(rep, "C19")
 	rep.write(dir)
 }
